@@ -27,6 +27,17 @@ def replay_history(req, tmp):
         if not C.is2d:
             objs.update(iline=emu.iline, xline=emu.xline, depth_slice=emu.depth_slice, subvolume=emu.subvolume)
         who = lambda k, m: objs.get(ROLE.get(m.name.replace('_2d', ''), 'self'), emu)
+    elif config == 'two-files':
+        import shutil
+        from replay import specio
+        other = C.path + '.other.sgz'
+        req2 = dict(req)
+        req2['seed'] = 99
+        import tempfile
+        d2 = tempfile.mkdtemp(prefix='verif-other-')
+        C2 = build_case(req2, d2)
+        ra, rb = R.SgzReader(C2.path, **kw), R.SgzReader(C.path, **kw)
+        who = lambda k, m: rb if k == len(ms) - 1 else ra
     elif config in ('two', 'two-close'):
         ra, rb = R.SgzReader(C.path, **kw), R.SgzReader(C.path, **kw)
         who = lambda k, m: rb if k == len(ms) - 1 else ra
